@@ -8,6 +8,7 @@ import (
 	"crypto/rsa"
 	"crypto/sha1"
 	"crypto/sha256"
+	"crypto/sha512"
 	"crypto/x509"
 	"encoding/base64"
 	"fmt"
@@ -118,6 +119,9 @@ func Redirect(d *reply.Decoded, param string, cert *x509.Certificate) error {
 	case "http://www.w3.org/2001/04/xmldsig-more#rsa-sha256":
 		s := sha256.Sum256([]byte(octets))
 		return rsa.VerifyPKCS1v15(pub, crypto.SHA256, s[:], sig)
+	case "http://www.w3.org/2001/04/xmldsig-more#rsa-sha512":
+		s := sha512.Sum512([]byte(octets))
+		return rsa.VerifyPKCS1v15(pub, crypto.SHA512, s[:], sig)
 	}
 	return fmt.Errorf("SigAlg %q is not a signature algorithm URI", alg)
 }
